@@ -2318,6 +2318,42 @@ def field_table(fn, e, field, depth=0, kinds=False):
     P = fn.prog
     rows = []
     e0 = strip(e)
+    if e0[0] == 'field' and e0[2] == field and strip(e0[1])[0] == 'var':
+        e0 = strip(e0[1])
+    # a struct local that the fact loader split into per-field locals, each defined as `<whole>.<field>` wherever the whole value is
+    # (re)built: the field of the value built in the same block
+    if e0[0] == 'var' and not (1 <= e0[1] <= fn.nargs):
+        ds = fn.defs().get(e0[1], [])
+        des = [fn.expr_of_def(d) for d in ds]
+        proj_ = [x for x in des if x[0] == 'field' and x[2] == field and strip(x[1])[0] == 'var']
+        if len(ds) >= 2 and proj_ and len({strip(x[1])[1] for x in proj_}) == 1 and str(fn.names.get(e0[1], '')).endswith('.' + field):
+            W = strip(proj_[0][1])
+            wdefs = {d[0]: d for d in fn.defs().get(W[1], [])}
+            for wd in fn.defs().get(W[1], []):
+                if wd[2] == 'call':         # the result of a call is there in the block the call continues in
+                    for y in fn.succ(wd[0]):
+                        wdefs.setdefault(y, wd)
+            is_proj = lambda d: fn.expr_of_def(d)[0] == 'field' and fn.expr_of_def(d)[2] == field
+            if all(d[0] in wdefs for d in ds if is_proj(d)):
+                first = [d for d in ds if all(fn.dominates(d[0], d2[0]) for d2 in ds)]
+                base_conds = {(b, repr(c), lab) for b, c, lab in _edge_conds(fn, first[0][0])} if first else set()
+                out = []
+                for d in ds:
+                    if not is_proj(d):
+                        # `v.f = x;` written to the split field directly
+                        own = [(c, lab) for b, c, lab in _edge_conds(fn, d[0]) if (b, repr(c), lab) not in base_conds]
+                        out.append((own, fn.expr_of_def(d), 'base' if first and d is first[0] else 'over'))
+                        continue
+                    whole = strip(ctor_norm(P, expand(fn, fn.expr_of_def(wdefs[d[0]]), keep=lambda ty: True)))
+                    if whole[0] != 'agg' or field not in dict(whole[2]):
+                        return None
+                    v = dict(whole[2])[field]
+                    v0 = strip(v)
+                    if v0 == e0 or (v0[0] == 'var' and v0[1] == e0[1]) or (v0[0] == 'field' and v0[2] == field and strip(v0[1])[:2] == W[:2]):
+                        continue            # rebuilt with this field unchanged
+                    own = [(c, lab) for b, c, lab in _edge_conds(fn, d[0]) if (b, repr(c), lab) not in base_conds]
+                    out.append((own, v, 'base' if first and d is first[0] else 'over'))
+                return out if kinds else [(c_, v_) for c_, v_, _k in out]
     for conds, v in value_table(fn, e0):
         selfref = isinstance(v, tuple) and v and v[0] == 'self-referential'
         ve = ctor_norm(P, expand(fn, v[1] if selfref else v, keep=(lambda ty, e0=e0: False)))
@@ -2350,6 +2386,20 @@ def field_table(fn, e, field, depth=0, kinds=False):
             rows.append((conds, dict(ve[2])[field], 'base'))
             continue
         return None
+    # plain field stores on the local (`v.doc = doc;`) after it was built: later values under the conditions of the store
+    if e0[0] == 'var' and not (1 <= e0[1] <= fn.nargs):
+        ds0 = fn.defs().get(e0[1], [])
+        base_conds = {(b, repr(c), lab) for b, c, lab in _edge_conds(fn, ds0[0][0])} if ds0 else set()
+        for (bi, si, kind, payload, span) in fn.stores().get(e0[1], []):
+            if kind != 'rv':
+                return None
+            pr = payload['place']['proj']
+            if len(pr) != 1 or pr[0].get('k') != 'Field':
+                return None
+            if pr[0].get('name') != field:
+                continue
+            own = [(c, lab) for b, c, lab in _edge_conds(fn, bi) if (b, repr(c), lab) not in base_conds]
+            rows.append((own, fn.expr_of_rvalue(payload['rv']), 'over'))
     return rows if kinds else [(c_, v_) for c_, v_, _k in rows]
 
 
@@ -2383,6 +2433,9 @@ def final_field_value(fn, e, field):
     rows = [([(strip(expand(fn, c[1])) if c[0] == 'discr' else None, c, l) for c, l in cs], strip(v), k) for cs, v, k in rows]
     if all(k == 'base' for cs, v, k in rows) and all(repr(v) == repr(rows[0][1]) for cs, v, k in rows):
         return rows[0][1]
+    uncond = [(cs, v, k) for cs, v, k in rows if k == 'over' and not cs]
+    if len(uncond) == 1 and len([1 for cs, v, k in rows if k == 'over']) == 1:
+        return uncond[0][1]          # `v.f = x;` right after the value was built: x, whatever the constructor put there
     somes = [(cs, v, k) for cs, v, k in rows if v[0] == 'agg' and v[1].endswith('Option::Some') and v[2]]
     nones = [(cs, v, k) for cs, v, k in rows if v[0] == 'agg' and v[1].endswith('Option::None')]
     if not somes or len(somes) + len(nones) != len(rows):
